@@ -13,6 +13,9 @@ X5 window       (necessary condition of the round trip) decode_latitude / decode
                 for every 32-bit word and several constant references: the result stays within half the
                 ambiguity range (2^18 resp. 2^19 steps of 128e-7 degrees; the packet carries 19 / 20 bits)
                 of the reference, and reaches both ends of that window.
+K1 key table    (necessary condition of the round trip; after seed C15-s3) make_key chooses between two key tables by
+                exactly bit 23 of the timestamp (the condition's bit normal form is {0: 23} of the time argument);
+                the table used when the bit is set / clear is the published KEY1B / KEY1.
 Not decided: the inversion of an independent encoder/encryptor (round trip): it quantifies over the
 values produced by a second implementation; no structural rule stands for it.
 """
@@ -140,6 +143,7 @@ def run(prog, rep, tier):
                       '%s with reference %s returns values in [%s, %s] (offsets %+.5f .. %+.5f); the %d-bit field gives a window of +-%.5f degrees around the reference%s'
                       % (fn, r, lo, hi, lo - r, hi - r, nbits, W, '' if inside else ': a target inside the window is decoded outside it'),
                       sample={'fn': fn, 'reference': r, 'offsets': [lo - r, hi - r], 'window': W})
+    k1_key_table(prog, rep)
     # X4 effects
     ne = 0
     for did, cnt in sorted(E.ext_calls.items()):
@@ -154,3 +158,63 @@ def run(prog, rep, tier):
 def frame_arg(E, st, frame, i):
     """value of the i-th parameter (0-based) of the frame's body"""
     return E.operand(st, frame, {'k': 'copy', 'pl': {'l': i + 1, 'p': []}})
+
+
+KEY1 = [0xe43276df, 0xdca83759, 0x9802b8ac, 0x4675a56b]
+KEY1B = [0xfc78ea65, 0x804b90ea, 0xb76542cd, 0x329dfa32]
+
+
+def k1_key_table(prog, rep):
+    import terms
+    from absint import T, mk_int
+    body = next((b for b in prog.bodies.values() if b['kind'] == 'fn' and b['name'] == 'decode::flarm::make_key' and b['crate'] == 'rs1090'), None)
+    if body is None:
+        rep.missing('decode::flarm::make_key')
+        return
+    E = runner.make_engine(prog, K=8)
+    t_time = T('o', ('p', 'time'))
+    seen = []
+
+    def ch(E_, frame, bb, t, sts, c):
+        if frame.depth != 0 or c.get('item') != 'map' or 'array' not in (c.get('rdid') or c.get('did') or c.get('name') or ''):
+            return
+        for st in sts:
+            arr = st.resolve(E_.expand(E_.operand(st, frame, t['args'][0])))
+            items = None
+            if arr != A.BOT and arr[0] == 'S' and arr[3] is not None:
+                items = [E_.scalar(st, x) for x in arr[3]]
+            elif arr != A.BOT and arr[0] == 'A':
+                items = [E_.scalar(st, x) for x in arr[1]]
+            tab = [x[1] & 0xFFFFFFFF for x in items] if items and all(x[0] == 'I' and x[1] == x[2] for x in items) else None
+            conds = []
+            for f in st.facts:
+                if f[0] in ('Eq', 'Ne') and f[2] == T('c', 0) and isinstance(f[1], tuple) and f[1][0] in ('BitAnd', 'Shr'):
+                    conds.append((f[0], f[1]))
+            for tm, iv in st.rf.items():
+                if tm[0] in ('BitAnd',) and iv[0] == iv[1]:
+                    conds.append(('Eq' if iv[0] == 0 else 'Ne', tm))
+            seen.append((tab, conds))
+    E.call_hook = ch
+    runner.run_entry(E, body, [E.reg(mk_int(0, (1 << 32) - 1, 0, t_time)), None], quiet=True)
+    rep.floor('key-table selections in make_key', len(seen), 2)
+    got = {}
+    for tab, conds in seen:
+        bit = None
+        val = None
+        for op, tm in conds:
+            try:
+                m, atom = terms.bit_form(tm, width=64)
+            except terms.NotNormal:
+                continue
+            if atom == t_time and list(m.keys()) == [0]:
+                bit = m[0]
+                val = 1 if op == 'Ne' else 0
+        got[val] = (bit, tab)
+    ok = set(got) == {0, 1} and all(got[v][0] == 23 for v in (0, 1))
+    rep.check(ok, 'K1-key-table', 'make_key#selection-bit', body['file'],
+              'the key table is not selected by bit 23 of the timestamp alone (bit found per branch: %s)' % {v: got[v][0] for v in got},
+              sample={'selection bit': 23, 'branches': sorted(str(k) for k in got)})
+    if ok:
+        rep.check(got[1][1] == KEY1B and got[0][1] == KEY1, 'K1-key-table', 'make_key#tables', body['file'],
+                  'key tables differ from the published ones: bit set -> %s, bit clear -> %s' % ([hex(x) for x in got[1][1]] if got[1][1] else None, [hex(x) for x in got[0][1]] if got[0][1] else None),
+                  sample={'bit 23 set': 'KEY1B', 'bit 23 clear': 'KEY1'})
